@@ -185,6 +185,8 @@ SS_CONFIGS = [
     ('ss_4_transparent_stdset_i32_std', smallset('i32', 4, 'transparent', 'std', 'stdset', 2, 'flatvec')),
     ('ss_3_less_flatvec_tr_realamc', smallset('tr', 3, 'less', 'realamc', 'flatvec', 2, 'stdset')),
     ('ss_3_less_flatvec_co_std', smallset('co', 3, 'less', 'std', 'flatvec', 2, 'flatvec')),
+    ('ss_20_less_stdset_i32_std', smallset('i32', 20, 'less', 'std', 'stdset', 18, 'stdset')),
+    ('ss_18_greater_flatvec_ntr_amc', smallset('ntr', 18, 'greater', 'amc', 'flatvec', 24, 'flatvec')),
     ('ss_2_greater_stdset_co_amc', smallset('co', 2, 'greater', 'amc', 'stdset', 4, 'stdset')),
 ]
 SS_DEFS = dict(SS_CONFIGS)
